@@ -344,5 +344,71 @@ def s_images():
     return Seed("images", o, roles)
 
 
+def _ttf_with_cmap():
+    """A minimal TrueType file: table directory with one table, cmap, holding subtables of format 0, 2 and 4."""
+    import struct
+
+    fmt0 = struct.pack(">HHH", 0, 262, 0) + bytes((i if 65 <= i <= 70 else 0) for i in range(256))
+    # format 2: all first bytes use subheader 0; one subheader (firstCode 65, 3 entries, delta 0, glyph array right behind)
+    fmt2 = struct.pack(">HHH", 2, 6 + 512 + 8 + 6, 0) + struct.pack(">256H", *([0] * 256)) + struct.pack(">HHhH", 65, 3, 0, 2) + struct.pack(">3H", 1, 2, 3)
+    # format 4: segments [65..67] through the glyph array, [0xFFFF] by delta
+    segs = 2
+    fmt4_body = struct.pack(">HHHH", segs * 2, 4, 1, 0) + struct.pack(">2H", 67, 0xFFFF) + b"\x00\x00" + struct.pack(">2H", 65, 0xFFFF) + struct.pack(">2h", 0, 1) + struct.pack(">2H", 4, 0) + struct.pack(">3H", 1, 2, 3)
+    fmt4 = struct.pack(">HHH", 4, 6 + len(fmt4_body), 0) + fmt4_body
+    subs = [(0, 3, fmt0), (3, 10, fmt2), (3, 1, fmt4), (1, 0, fmt0)]
+    head = struct.pack(">HH", 0, len(subs))
+    off = 4 + 8 * len(subs)
+    body = b""
+    for plat, enc, data in subs:
+        head += struct.pack(">HHL", plat, enc, off + len(body))
+        body += data
+    cmap = head + body
+    directory = b"\x00\x01\x00\x00" + struct.pack(">HHHH", 1, 16, 0, 0) + struct.pack(">4sLLL", b"cmap", 0, 12 + 16, len(cmap))
+    return directory + cmap
+
+
+TYPE1_HEADER = b"""%!PS-AdobeFont-1.0: Seed 001.000
+12 dict begin
+/FontInfo 3 dict dup begin /FullName (Seed) readonly def end readonly def
+/FontName /Seed def
+/Encoding 256 array
+0 1 255 {1 index exch /.notdef put} for
+dup 65 /B put
+dup 66 /Euro put
+dup 67 /uni0416 put
+dup 68 /g17 put
+readonly def
+/FontBBox {0 -200 1000 800} readonly def
+currentdict end
+currentfile eexec
+"""
+
+
+def s_fontfiles():
+    """Embedded font programs that pdfminer reads: a Type 1 header (/FontFile, encoding recovered from it) and a
+    TrueType cmap table (/FontFile2 of an Identity CID font without /ToUnicode)."""
+    ttf = _ttf_with_cmap()
+    t1 = TYPE1_HEADER + bytes((i * 73 + 5) % 256 for i in range(64)) + b"\n" + b"0" * 64 + b"\ncleartomark\n"
+    content = b"BT /F1 12 Tf 50 700 Td (ABCD) Tj /F2 12 Tf 0 -20 Td <000100020003> Tj /F3 10 Tf 0 -20 Td (AB) Tj ET"
+    fdesc = {b"Type": Name(b"FontDescriptor"), b"Flags": 4, b"FontBBox": [0, -200, 1000, 800], b"ItalicAngle": 0, b"Ascent": 800, b"Descent": -200, b"CapHeight": 700, b"StemV": 80}
+    o = {
+        1: {b"Type": Name(b"Catalog"), b"Pages": Ref(2, 0)},
+        2: {b"Type": Name(b"Pages"), b"Kids": [Ref(3, 0)], b"Count": 1},
+        3: {b"Type": Name(b"Page"), b"Parent": Ref(2, 0), b"MediaBox": [0, 0, 612, 792], b"Contents": Ref(4, 0), b"Resources": {b"Font": {b"F1": Ref(5, 0), b"F2": Ref(8, 0), b"F3": Ref(12, 0)}}},
+        4: content_stream(content),
+        5: {b"Type": Name(b"Font"), b"Subtype": Name(b"Type1"), b"BaseFont": Name(b"Seed"), b"FirstChar": 65, b"LastChar": 68, b"Widths": [500, 600, 700, 800], b"FontDescriptor": Ref(6, 0)},
+        6: {**fdesc, **{b"FontName": Name(b"Seed"), b"FontFile": Ref(7, 0)}},
+        7: content_stream(t1, extra={b"Length1": len(TYPE1_HEADER), b"Length2": 65, b"Length3": 78}),
+        8: {b"Type": Name(b"Font"), b"Subtype": Name(b"Type0"), b"BaseFont": Name(b"SeedTT"), b"Encoding": Name(b"Identity-H"), b"DescendantFonts": [Ref(9, 0)]},
+        9: {b"Type": Name(b"Font"), b"Subtype": Name(b"CIDFontType2"), b"BaseFont": Name(b"SeedTT"), b"CIDSystemInfo": {b"Registry": Str(b"Adobe"), b"Ordering": Str(b"Identity"), b"Supplement": 0}, b"FontDescriptor": Ref(10, 0), b"DW": 600, b"CIDToGIDMap": Name(b"Identity")},
+        10: {**fdesc, **{b"FontName": Name(b"SeedTT"), b"FontFile2": Ref(11, 0)}},
+        11: content_stream(ttf, extra={b"Length1": len(ttf)}),
+        12: {b"Type": Name(b"Font"), b"Subtype": Name(b"TrueType"), b"BaseFont": Name(b"SeedTT2"), b"FirstChar": 65, b"LastChar": 66, b"Widths": [500, 600], b"FontDescriptor": Ref(13, 0)},
+        13: {**fdesc, **{b"FontName": Name(b"SeedTT2"), b"FontFile2": Ref(11, 0)}},
+    }
+    roles = {1: "Catalog", 2: "Pages", 3: "Page", 4: "ContentStream", 5: "Font:Type1+FontFile", 6: "FontDescriptor", 7: "FontFile:Type1", 8: "Font:Type0", 9: "Font:CID+FontFile2", 10: "FontDescriptor", 11: "FontFile2:TrueType", 12: "Font:TrueType+FontFile2", 13: "FontDescriptor"}
+    return Seed("fontfiles", o, roles)
+
+
 def all_seeds():
-    return [s_classic(), s_xrefstream(), s_fonts(), s_forms_images(), s_filters(), s_labels_outlines(), s_cjk(), s_hybrid(), s_encrypted_rc4(), s_encrypted_aes(), s_encrypted_aes256(), s_images()]
+    return [s_classic(), s_xrefstream(), s_fonts(), s_forms_images(), s_filters(), s_labels_outlines(), s_cjk(), s_hybrid(), s_encrypted_rc4(), s_encrypted_aes(), s_encrypted_aes256(), s_images(), s_fontfiles()]
